@@ -216,6 +216,7 @@ func updateFileDiagnostics(
 	}
 
 	cache.SetFileAggregates(fileURI, rpt.Aggregates)
+	cache.SetFileIgnoreDirectives(fileURI, rpt.IgnoreDirectives)
 
 	return nil
 }
@@ -245,7 +246,8 @@ func updateAllDiagnostics(
 
 	if aggregatesReportOnly {
 		regalInstance = regalInstance.
-			WithAggregates(cache.GetFileAggregates())
+			WithAggregates(cache.GetFileAggregates()).
+			WithIgnoreDirectives(cache.GetIgnoreDirectives())
 	} else {
 		input := rules.NewInput(files, modules)
 		regalInstance = regalInstance.WithInputModules(&input)
@@ -282,6 +284,7 @@ func updateAllDiagnostics(
 	if overwriteAggregates {
 		// clear all aggregates, and use these ones
 		cache.SetAggregates(rpt.Aggregates)
+		cache.SetIgnoreDirectives(rpt.IgnoreDirectives)
 	}
 
 	return nil
